@@ -173,7 +173,7 @@ def run(ck):
     ck.sample(_short(ccases[rnd.randrange(len(ccases))]))
 
     # ---- 3. replay ----
-    obs = ck.pmap("impl_c06", "observe", scases + ccases, chunk_timeout=3000)
+    obs = ck.pmap("impl_c06", "observe", scases + ccases, chunk_timeout=ck.q(3000, 14400))  # only a guard against hangs; a shared machine can be 30x slower
     bad = [o for o in obs if "_error" in o]
     if bad:
         raise MachineryFailure("replay error: " + str(bad[0])[:1500])
